@@ -298,6 +298,11 @@ gensalt_sunmd5_rn (unsigned long count,
   count += ((unsigned long)rbytes[0]) << 8;
   count += ((unsigned long)rbytes[1]) << 0;
 
+  /* crypt_sunmd5_rn adds the basic 4096 rounds to this number in 32-bit
+     arithmetic; never generate a count that makes that sum wrap around.  */
+  if (count > SUNMD5_MAX_ROUNDS - 4096)
+    count = SUNMD5_MAX_ROUNDS - 4096;
+
   assert (count != 0);
 
   size_t written = (size_t) snprintf ((char *)output, o_size,
